@@ -8,7 +8,7 @@ from harness import build, gen, simnet
 from harness.runner import Prop, held, failed
 from props.c09 import base_script, PROXY_200
 
-MECHANISMS = ("break", "raise", "gen_close", "with_exit", "gen_close_other_thread", "drop_in_other_thread")
+MECHANISMS = ("break", "raise", "gen_close", "with_exit", "with_exit_long_text", "gen_close_other_thread", "drop_in_other_thread")
 
 
 def _closed_by_library(st):
@@ -97,7 +97,7 @@ class C13(Prop):
     level = "fault_enumeration"
     rule = ("for each generated base scenario (messages, pings, idle periods giving top-of-loop Polls, ping timeout giving "
             "Unresponsive, closing handshakes, plain or TLS-wrapped socket, optionally one failing write) the unabandoned run is recorded, then the consumer "
-            "abandons the loop at EVERY event index by each of six mechanisms (break = generator dropped, handler raises, "
+            "abandons the loop at EVERY event index by each of seven mechanisms (break = generator dropped, handler raises, "
             "gen.close(), exception leaving a with-block, gen.close() called by ANOTHER thread, last reference dropped on another "
             "thread); all harness references to the generator are dropped and the socket and "
             "(if created) the selector must be released while the WebSocket object is still alive. Non-trivial = abandonment after "
